@@ -233,6 +233,17 @@ class Policy:
         want = rng.choice(["unreach", "nopivot", "fwblock", "noaccess",
                            "hostcfg", "reexploit", "rooted", "rescan"])
         comp, acc, reach, disc = S
+        if want in ("nopivot", "fwblock", "hostcfg") and rng.random() < 0.6:
+            # look at every action: these gates are rare in random picks
+            cands = []
+            for i, d in enumerate(s.descs):
+                if d["kind"] not in ("exploit", "privesc"):
+                    continue
+                _ok, _S2, _v, g, _e = s.model.step(S, d, None)
+                if g == want:
+                    cands.append(i)
+            if cands:
+                return rng.choice(cands)
         for _ in range(60):
             i = rng.randrange(n)
             d = s.descs[i]
